@@ -1,0 +1,8 @@
+//go:build verif
+
+// Contracts for package client, read by /verif/govc. Comment-only file.
+package client
+
+//@ func (*ovsdbClient).primaryDB
+//@ pure
+//@ ensures result == o.databases[o.primaryDBName]
